@@ -2,7 +2,7 @@
 //! list, minimisation, worker batches and the merged result.
 
 use crate::workload::{Gen, Limits, Prop, plan_limited};
-use crate::prng::{Prng, run_seed};
+use crate::prng::{Prng, hex, run_seed};
 use crate::registry::Registry;
 use crate::world::{Anchors, Op, RunCfg, Stats, Violation, World};
 use serde_json::{Value, json};
@@ -20,6 +20,8 @@ pub struct RunResult {
     pub task_order: u64,
     pub insts_created: u64,
     pub harness_error: Option<String>,
+    /// cold-start mode: the recorded calls, for judgement by another process
+    pub records: Vec<serde_json::Value>,
 }
 
 impl RunResult {
@@ -129,6 +131,7 @@ pub fn execute_mode(
             }
         }
     }
+    let records = if cold { w.pending_records() } else { Vec::new() };
     if cold && violation.is_none() {
         w.drop_all();
         if let Some(v) = w.settle() {
@@ -157,6 +160,7 @@ pub fn execute_mode(
         task_order: w.task_order.finish(),
         insts_created: created,
         harness_error,
+        records,
     }
 }
 
@@ -210,6 +214,7 @@ pub fn run_one_full(reg: &Registry, anchors: &Anchors, prop: Prop, seed: u64, kn
             }
         }
     }
+    let records = if cold { w.pending_records() } else { Vec::new() };
     if cold && violation.is_none() {
         w.drop_all();
         if let Some(v) = w.settle() {
@@ -238,6 +243,7 @@ pub fn run_one_full(reg: &Registry, anchors: &Anchors, prop: Prop, seed: u64, kn
         task_order: w.task_order.finish(),
         insts_created: created,
         harness_error,
+        records,
     }
 }
 
@@ -757,5 +763,172 @@ pub fn grid_cases(reg: &Registry, prop: Prop, seed: u64) -> Vec<GridCase> {
             }
         }
     }
+    out
+}
+
+/// A compact batch-shape grid for a backend that exists only on another target (executed there by the
+/// interpreter): one combined instance of one build variant, both directions, the three multi-block shapes
+/// in place and with disjoint buffers, batch lengths par, par+1 and 2*par+1 for that backend's width.
+pub fn target_grid_case(reg: &Registry, fam_name: &str, variant: &str, par: usize, mask: bool, seed: u64, compact: bool) -> Option<GridCase> {
+    use crate::registry::{Dir, Role, Shape};
+    let f = reg.family(fam_name)?;
+    let fam = &reg.families[f];
+    let vidx = fam.variants.iter().position(|v| v.variant == variant)?;
+    let mut rng = Prng::new(seed ^ 0x7A26E7);
+    let mut variants = std::collections::BTreeMap::new();
+    variants.insert(f, vec![vidx]);
+    let cfg = RunCfg { variants, mask, tasks: 1, strict_arena: false };
+    let bs = fam.block;
+    let maxn = (crate::workload::REGION * 2 - 64) / 2 / bs;
+    let mut ops = vec![Op::New { id: 1, task: 0, fam: f, role: Role::Both, key: rng.bytes(fam.key_size), fixed: false }];
+    let mut k = 0usize;
+    for dir in [Dir::Dec, Dir::Enc] {
+        for shape in [Shape::BlocksB2b, Shape::BlocksInout, Shape::Blocks] {
+            for n in if compact { vec![par + 1] } else { vec![par, par + 1, 2 * par + 1] } {
+                let n = n.min(maxn);
+                let len = n * bs;
+                k += 1;
+                let (i, o) = if shape.in_place_only() {
+                    let off = 64 + (k % 16);
+                    (off, off)
+                } else if k % 2 == 0 {
+                    (32 + (k % 16), 32 + (k % 16) + len + (k % 5)) // out above, small gap
+                } else {
+                    (crate::mem::ARENA_BYTES - len, crate::mem::ARENA_BYTES - 2 * len - (k % 3)) // in at the arena end, out below
+                };
+                let data = if k % 3 == 0 { crate::workload::related_blocks(&mut rng, n, bs) } else { rng.bytes(len) };
+                ops.push(Op::Call { id: 1, task: 0, dir, shape, n: n as u32, in_off: i as u32, out_off: o as u32, data });
+            }
+        }
+        ops.push(Op::Call { id: 1, task: 0, dir, shape: Shape::BlockB2b, n: 1, in_off: 7, out_off: 200, data: rng.bytes(bs) });
+    }
+    ops.push(Op::Drop { id: 1, task: 0 });
+    Some(GridCase { cfg, ops, label: format!("{} {} par={} mask_aes={}", fam_name, variant, par, mask) })
+}
+
+// ---------------------------------------------------------------------------
+// churn phase: thousands of constructions and drops over a handful of keys while one instance lives on.
+// Process-global state with a life of its own (a cache with generation counters, a pool recycled round
+// robin, anything that changes after the Nth construction) needs volume and key repetition that seeded
+// 96-operation histories over random keys never produce.
+
+pub struct ChurnOutcome {
+    pub constructions: u64,
+    pub checkpoints: u64,
+    pub violation: Option<Violation>,
+}
+
+pub fn churn_count(family: &str) -> u64 {
+    match family {
+        "blowfish" | "blowfish_le" => 9_000,
+        f if f.starts_with("threefish") => 20_000,
+        "twofish" | "serpent" | "kuznyechik" | "rc2" => 20_000,
+        _ => 220_000,
+    }
+}
+
+/// Deterministic in (type, seed, n).
+pub fn churn_type(reg: &Registry, ty: usize, seed: u64, n: u64) -> ChurnOutcome {
+    use crate::registry::Dir;
+    use crate::world::{fresh_perblock_raw, guard, perblock_on};
+    let t = &reg.types[ty];
+    let f = reg.family(t.family).unwrap();
+    let fam = &reg.families[f];
+    let mut rng = Prng::new(seed ^ 0xC4021 ^ (ty as u64) << 20);
+    let klen = fam.key_size;
+    let key_a = rng.bytes(klen);
+    // the other keys: two random ones and three related to A (cyclic shift, one bit apart, shared prefix)
+    let mut others: Vec<Vec<u8>> = vec![rng.bytes(klen), rng.bytes(klen)];
+    let mut k = key_a.clone();
+    k.rotate_left(1);
+    others.push(k);
+    let mut k = key_a.clone();
+    k[klen - 1] ^= 1;
+    others.push(k);
+    let mut k = rng.bytes(klen);
+    k[..klen / 2].copy_from_slice(&key_a[..klen / 2]);
+    others.push(k);
+    let dir = if t.enc.is_some() { Dir::Enc } else { Dir::Dec };
+    let block = rng.bytes(2 * t.block);
+    let mut slots = crate::mem::Slots::new();
+    let (sa, sb) = (slots.alloc(0), slots.alloc(0));
+    let (pa, pb) = (slots.ptr(sa), slots.ptr(sb));
+    let mut out = ChurnOutcome { constructions: 0, checkpoints: 0, violation: None };
+    let viol = |class: &str, detail: String, want: &[u8], got: &[u8], step: u64| Violation {
+        prop: "C15",
+        class: class.to_string(),
+        step: step as usize,
+        family: fam.name.to_string(),
+        variant: t.variant.to_string(),
+        detail,
+        expected: want.to_vec(),
+        got: got.to_vec(),
+        also: vec![],
+    };
+    // start values
+    let want_a = match fresh_perblock_raw(t, pb, &key_a, false, dir, &block) {
+        Ok(v) => v,
+        Err(_) => return out,
+    };
+    let want_o: Vec<Vec<u8>> = others.iter().map(|k| fresh_perblock_raw(t, pb, k, false, dir, &block).unwrap_or_default()).collect();
+    // the long-lived instance of A, and A seen a second time
+    if !guard(|| unsafe { (t.new_from_slice)(pa, &key_a) }).unwrap_or(false) {
+        return out;
+    }
+    let _ = fresh_perblock_raw(t, pb, &key_a, false, dir, &block);
+    out.constructions = 3 + others.len() as u64;
+    // Gap schedule: after a (checked) fresh construction of A, exactly g+d constructions of OTHER keys, then A
+    // again. Checking A more often would itself refresh whatever per-key state a cache keeps, so the long gaps
+    // contain no construction of A at all; only the long-lived instance is consulted inside a gap.
+    let mut gaps: Vec<u64> = Vec::new();
+    for g in [16u64, 256, 1024, 4096, 65536] {
+        for d in [0u64, 1, 2] {
+            if g + d <= n {
+                gaps.push(g + d);
+            }
+        }
+    }
+    let mut budget = n;
+    let mut step = 0u64;
+    'outer: for (gi, &gap) in gaps.iter().cycle().enumerate() {
+        if gap > budget || gi > 4 * gaps.len() {
+            break;
+        }
+        budget -= gap;
+        for i in 0..gap {
+            let j = ((step + i) % others.len() as u64) as usize;
+            if guard(|| unsafe { (t.new_from_slice)(pb, &others[j]) }).unwrap_or(false) {
+                if i % 97 == 0 {
+                    if let Ok(got) = perblock_on(t, pb, dir, &block) {
+                        if got != want_o[j] {
+                            let _ = guard(|| unsafe { (t.drop)(pb) });
+                            out.violation = Some(viol("churn", format!("{}: after {} constructions over 6 keys, a fresh instance of key {} returns bytes that differ from what the same key returned at the start", t.name, out.constructions, hex(&others[j])), &want_o[j], &got, step + i));
+                            break 'outer;
+                        }
+                    }
+                }
+                let _ = guard(|| unsafe { (t.drop)(pb) });
+            }
+            out.constructions += 1;
+            if i % 509 == 0 {
+                let live = perblock_on(t, pa, dir, &block).unwrap_or_default();
+                if live != want_a {
+                    out.violation = Some(viol("churn", format!("{}: after {} constructions over 6 keys (key A = {}), the long-lived instance of key A returns bytes that differ from what key A returned at the start", t.name, out.constructions, hex(&key_a)), &want_a, &live, step + i));
+                    break 'outer;
+                }
+            }
+        }
+        step += gap;
+        out.checkpoints += 1;
+        let live = perblock_on(t, pa, dir, &block).unwrap_or_default();
+        let fresh = fresh_perblock_raw(t, pb, &key_a, false, dir, &block).unwrap_or_default();
+        out.constructions += 1;
+        if live != want_a || fresh != want_a {
+            let which = if live != want_a { "the long-lived instance" } else { "a fresh instance" };
+            out.violation = Some(viol("churn", format!("{}: {} constructions of five other keys after the last construction of key A ({} in total; key A = {}), {} of key A returns bytes that differ from what key A returned at the start", t.name, gap, out.constructions, hex(&key_a), which), &want_a, if live != want_a { &live } else { &fresh }, step));
+            break;
+        }
+    }
+    let _ = guard(|| unsafe { (t.drop)(pa) });
     out
 }
